@@ -73,7 +73,7 @@ Qed.
 (* ---------- C13: operations through a handle that is not open ---------- *)
 Lemma late_ops_spec a h :
   h <> 0 -> aopen_find a h = None ->
-  (forall k v, k <> 0 -> astep a (OSet h k v) = (a, OutErr ETxNotFound)) /\
+  (forall k v, astep a (OSet h k v) = (a, OutErr ETxNotFound)) /\
   (forall k, astep a (ODel h k) = (a, OutErr ETxNotFound)) /\
   (forall k, astep a (OGet h k) = (a, OutErr ETxNotFound)) /\
   astep a (OKeys h) = (a, OutErr ETxNotFound) /\
@@ -83,8 +83,7 @@ Proof.
   intros Hh Hf.
   assert (Er : areader a h = None).
   { unfold areader. destruct (N.eqb_spec h 0); [contradiction | exact Hf]. }
-  repeat split; intros; cbn [astep]; rewrite ?Er, ?Hf; try reflexivity.
-  destruct (N.eqb_spec k 0); [contradiction | reflexivity].
+  repeat split; intros; cbn [astep]; rewrite ?Er, ?Hf; reflexivity.
 Qed.
 
 (* ---------- C09: the collector and draining are the identity of the spec ---------- *)
